@@ -36,4 +36,19 @@ ActsC02sim == {"Leaf", "Bool", "Batch", "Split", "Plane", "Xf", "BoolAssign"}
 (* Cube) meet exact vertex-on-edge ties in the next Boolean.                                        *)
 CatDerived == { << <<-1,0,-2>>,  <<0,2,1>> >>, << <<-1,0,-1>>,  <<0,2,2>> >>,
                 << <<-1,-2,-1>>, <<1,0,1>> >>, << <<-2,-2,-1>>, <<1,1,0>> >> }
+CatDerivedSeq == << << <<-1,0,-2>>,  <<0,2,1>> >>, << <<-1,0,-1>>,  <<0,2,2>> >>,
+                    << <<-1,-2,-1>>, <<1,0,1>> >>, << <<-2,-2,-1>>, <<1,1,0>> >> >>
+(* ACTION_CONSTRAINT of GenC02chain.cfg: the four boxes once each, in catalogue order, then a CHAIN *)
+(* of three Booleans: every operand is used exactly once and, after the first Boolean, one operand  *)
+(* is the newest result (a derived operand).  36 x 12 x 6 = 2592 programs, enumerated exhaustively.  *)
+ChainAC ==
+  /\ (kind = "" /\ kind' = "Bool") => NLeaves = 4
+  /\ (Len(nodes') > Len(nodes)) =>
+       LET nd == nodes'[Len(nodes')] IN
+       /\ (nd.k = "leaf") => nd.box = CatDerivedSeq[Len(nodes')]
+       /\ (nd.k = "op") =>
+            /\ nd.ch[1] # nd.ch[2]
+            /\ \A m \in 1..Len(nodes) : nodes[m].k = "op" =>
+                 \A i \in 1..Len(nodes[m].ch) : nodes[m].ch[i] \notin {nd.ch[1], nd.ch[2]}
+            /\ (Len(nodes) > 4) => Len(nodes) \in {nd.ch[1], nd.ch[2]}
 =============================================================================
